@@ -24,8 +24,20 @@ type case = {
 let fresh () = { spec = ""; b = None; ps = []; hs = []; draws = []; calls = [];
                  final = None; outcome = "" }
 
-let libm_exp (x : carrier) : carrier = f2c (exp (c2f x))
-let libm_pow (x : carrier) (y : carrier) : carrier = f2c (c2f x ** c2f y)
+(* libm's exp and pow; with VH_LIBM_LOG=1 every distinct call of a case is written out ("Q e x r" / "Q p x y r",
+   before the case's R line) so that the same model can be evaluated INSIDE Coq with these values as its oracle *)
+let logging = (try Sys.getenv "VH_LIBM_LOG" = "1" with Not_found -> false)
+let seen : (string, unit) Hashtbl.t = Hashtbl.create 997
+let logged : string list ref = ref []
+let remember (key : string) = if logging && not (Hashtbl.mem seen key) then begin Hashtbl.add seen key (); logged := key :: !logged end
+let libm_exp (x : carrier) : carrier =
+  let r = exp (c2f x) in
+  remember (Printf.sprintf "e %s %s" (hex_of_float (c2f x)) (hex_of_float r));
+  f2c r
+let libm_pow (x : carrier) (y : carrier) : carrier =
+  let r = c2f x ** c2f y in
+  remember (Printf.sprintf "p %s %s %s" (hex_of_float (c2f x)) (hex_of_float (c2f y)) (hex_of_float r));
+  f2c r
 
 let run_case (c : case) : string =
   let b = match c.b with Some b -> b | None -> failwith "case without B line" in
@@ -133,7 +145,9 @@ let main (path : string) : unit =
          | 'F' -> c.final <- Some (List.map float_of_hex (List.tl (split l)))
          | 'O' -> c.outcome <- String.sub l 2 (String.length l - 2)
          | 'E' ->
+             Hashtbl.reset seen; logged := [];
              let r = run_case c in
+             if logging && List.length !logged <= 4000 then List.iter (fun k -> Printf.printf "Q %s\n" k) (List.rev !logged);
              if String.length r >= 2 && String.sub r 0 2 = "OK" then incr nok else incr nbad;
              Printf.printf "R %s | %s\n" c.spec r
          | _ -> ()
